@@ -273,18 +273,25 @@ def check_counts(P, ctx, fr):
                             events.append(('rehash', it.ev(e[2][1])))
                             return 0
                         raise cint.NoEval('call %s' % nm)
-                    atoms = {('elem', 'self', 0, 'nslots'): nslots, ('elem', 'self', 0, 'nitems'): nitems}
-                    r = cint.CInt(P, fn, atoms=atoms, call=call, recurse=True).run([('ep', 'self', 0)] + args)
-                    if r[0] != 'ret':
-                        unsup = '%s' % (r[1],)
-                        continue
-                    # necessary for the map: growth happens when the ideal size exceeds the slots; any rehash goes to the ideal size
-                    # (a rehash that is not needed is harmless, a missed shrink only wastes memory)
-                    need = grows and ideal > nslots
-                    want = ([('insert',)] if want_insert else []) + ([('rehash', ideal)] if need else [])
-                    okev = events == want or (not need and events == want + [('rehash', ideal)])
-                    if not okev and bad is None:
-                        bad = '%d slots, ideal size %d for the count: %s' % (nslots, ideal, ', '.join('%s%s' % (e_[0], e_[1:] if len(e_) > 1 else '') for e_ in events) or 'nothing happens')
+                    def build(oracle, call=call, events=events):
+                        del events[:]
+                        atoms = {('elem', 'self', 0, 'nslots'): nslots, ('elem', 'self', 0, 'nitems'): nitems}
+                        it = cint.CInt(P, fn, atoms=atoms, call=call, recurse=True)
+                        it.unknown = oracle          # a field the model does not know may hold anything
+                        r = it.run([('ep', 'self', 0)] + args)
+                        return r, list(events)
+                    for assign, (r, evs) in cint.all_unknown(build):
+                        if r[0] != 'ret':
+                            unsup = '%s' % (r[1],)
+                            continue
+                        # necessary for the map: growth happens when the ideal size exceeds the slots; any rehash goes to the ideal size
+                        # (a rehash that is not needed is harmless, a missed shrink only wastes memory)
+                        need = grows and ideal > nslots
+                        want = ([('insert',)] if want_insert else []) + ([('rehash', ideal)] if need else [])
+                        okev = evs == want or (not need and evs == want + [('rehash', ideal)])
+                        if not okev and bad is None:
+                            bad = '%d slots, ideal size %d for the count%s: %s' % (nslots, ideal, ''.join(', %s = %d' % (k_[3], v_) for k_, v_ in assign.items()),
+                                                                             ', '.join('%s%s' % (e_[0], e_[1:] if len(e_) > 1 else '') for e_ in evs) or 'nothing happens')
         return fn, bad, unsup
     fn, bad, unsup = resize_eval(P.slot('Table', 'Get', 'set'), [8000, 8001], True, True)
     if unsup and not bad:
